@@ -22,7 +22,7 @@ from pyvc.values import And, Or, Not
 from pyvc.interp import PyRaise
 from pyvc.models import GhostLock
 from pyvc.harness import native_call
-from .common import lock_name, raw
+from .common import bounded_call, lock_name, raw
 
 ASSUMPTIONS = [
     'threading.RLock: mutual exclusion and re-entrancy; Thread.start starts exactly one thread running run()',
@@ -379,8 +379,8 @@ def replay_live():
                 bad = bad or 'reconnect started no thread'
         except Exception as e:
             bad = bad or 'reconnect after disconnect raised %r' % (e,)
-        c.disconnect(immediate=True)
-        c.disconnect()
+        bounded_call(c.disconnect, immediate=True)
+        bounded_call(c.disconnect)
     except Exception as e:
         bad = bad or 'scenario raised %r' % (e,)
     finally:
@@ -455,7 +455,7 @@ def replay_peer_gone():
         bad = 'scenario raised %r' % (e,)
     finally:
         try:
-            c.disconnect(immediate=True)
+            bounded_call(c.disconnect, immediate=True)
         except Exception:
             pass
         srv.close()
@@ -492,14 +492,12 @@ def replay_flush_send_fails():
         p = serverbound.play.ChatPacket()
         p.message = 'queued'
         c.write_packet(p)
-        try:
-            c.disconnect()
-            res = None
-        except Exception as e:      # noqa
-            res = e
+        from pyvc.harness import native_call
+        k, v = native_call(c.disconnect, timeout=3.0)
+        res = None if k == 'ok' else ('did not return within 3 s (%d send attempts)' % log.count('send') if k == 'hang' else v)
         if res is not None or 'close' not in log or c.socket is not None:
             return dict(confirmed=True, call='disconnect() with one packet queued; socket.send raises %r' % (exc,),
-                        observed='disconnect raised %r; events %r; socket released: %r' % (res, log, c.socket is None))
+                        observed='disconnect: %r; last events %r; socket released: %r' % (res, log[-4:], c.socket is None))
     return dict(confirmed=False, call='disconnect() with a queued packet over 5 kinds of send failure', observed='conforms')
 
 
@@ -516,7 +514,7 @@ def replay_stale_queue():
     try:
         c.connect()
         peer = srv.accept()[0]
-        c.disconnect(immediate=True)
+        bounded_call(c.disconnect, immediate=True)
         p = serverbound.play.ChatPacket()
         p.message = 'late'
         c.write_packet(p)                      # a late write on the dead connection stays in the queue
@@ -668,7 +666,7 @@ def replay_connect_plain():
                            '0..%d were discarded without being written' % (name, q.maxlen, q.maxlen + 5, q[0], q[0] - 1))
                     q.clear()
         try:
-            c.disconnect(immediate=True)
+            bounded_call(c.disconnect, immediate=True)
         except Exception:       # noqa
             pass
     finally:
